@@ -1,8 +1,65 @@
-import YaraModel.Spec.Text
+/-
+  C01 — Text-string matches are exactly the documented occurrences. Property theorems only
+  (helpers: Lemmas/Text*.lean). Specification: Spec/Text.lean. Model of the engine: Model/TextScan.lean.
+-/
+import YaraModel.Lemmas.TextCover
 namespace YaraModel.Text
-theorem window_length (buf : Bytes) (o n : Nat) (w : Bytes) (h : window buf o n = some w) : w.length = n := by
-  unfold window at h
-  split at h
-  · simp at h; rw [← h]; simp; omega
-  · cases h
+
+theorem mem_ite_singleton {α : Type} {c : Bool} {x v : α} (h : v ∈ (if c = true then [x] else [])) : c = true ∧ v = x := by
+  cases c <;> simp_all
+
+/-- **Nothing can be missed by the index**: for EVERY string, EVERY legal modifier set and xor range, EVERY
+    window the quality heuristic may choose (`ValidWindow w s`), EVERY buffer and offset: if the string occurs
+    at `o` in any documented variant, then one of the atoms inserted in the automaton occurs at exactly the
+    place (`o + backtrack`) from which the scanner computes the candidate offset `o`. -/
+theorem atoms_cover (w : Nat) (m : Mods) (s buf : Bytes) (o : Nat) (hw : ValidWindow w s) (hleg : m.legal = true)
+    (v : Nat × UInt8 × Bool) (hv : v ∈ variantsAt m s buf o) :
+    ∃ a ∈ atomsOf w m s, atomAt a buf o := by
+  have hwl := validWindow_le hw
+  have hA : ∀ (hp : (match m.xor with | none => true | some r => inRange r 0) = true) (ha : m.ascii = true)
+      (hocc : occursAt m.nocase s buf o = true), ∃ a ∈ atomsOf w m s, atomAt a buf o := by
+    intro hp ha hocc
+    obtain ⟨e', hwin, heq⟩ := occursAt_window hocc
+    exact cover_enc (m := m) s e' w (by simpa [baseAtom, sub4] using base_mem_l0 (w := w) (s := s) ha) hwl hwin
+      (plain_rel hleg heq hp)
+  have hB : ∀ (hp : (match m.xor with | none => true | some r => inRange r 0) = true) (hwd : m.wide = true)
+      (hocc : occursAt m.nocase (widen s) buf o = true), ∃ a ∈ atomsOf w m s, atomAt a buf o := by
+    intro hp hwd hocc
+    obtain ⟨e', hwin, heq⟩ := occursAt_window hocc
+    exact cover_enc (m := m) (widen s) e' (2 * w)
+      (by rw [← wideOf_base]; exact wide_mem_l0 hwd) (by rw [widen_length]; omega) hwin (plain_rel hleg heq hp)
+  unfold variantsAt at hv
+  split at hv
+  · cases hv
+  · simp only [List.mem_append] at hv
+    rcases hv with (hv | hv) | hv
+    · obtain ⟨hc, _⟩ := mem_ite_singleton hv
+      simp only [Bool.and_eq_true] at hc
+      exact hA hc.1.2 hc.1.1 hc.2
+    · obtain ⟨hc, _⟩ := mem_ite_singleton hv
+      simp only [Bool.and_eq_true] at hc
+      exact hB hc.1.2 hc.1.1 hc.2
+    · cases hx : m.xor with
+      | none => simp [hx] at hv
+      | some r =>
+        simp only [hx, List.mem_append] at hv
+        rcases hv with hv | hv
+        · cases ha : m.ascii with
+          | false => simp [ha] at hv
+          | true =>
+            simp only [ha, if_true, List.mem_map, Option.mem_toList, Option.filter_eq_some_iff] at hv
+            obtain ⟨k, ⟨hk, hr⟩, _⟩ := hv
+            simp only [Bool.and_eq_true] at hr
+            exact cover_enc (m := m) s (s.map (· ^^^ k)) w (by simpa [baseAtom, sub4] using base_mem_l0 (w := w) (s := s) ha) hwl
+              (xorKeyAt_some hk) (xor_rel hleg hx hr.1)
+        · cases hwd : m.wide with
+          | false => simp [hwd] at hv
+          | true =>
+            simp only [hwd, if_true, List.mem_map, Option.mem_toList, Option.filter_eq_some_iff] at hv
+            obtain ⟨k, ⟨hk, hr⟩, _⟩ := hv
+            simp only [Bool.and_eq_true] at hr
+            exact cover_enc (m := m) (widen s) ((widen s).map (· ^^^ k)) (2 * w)
+              (by rw [← wideOf_base]; exact wide_mem_l0 hwd) (by rw [widen_length]; omega)
+              (xorKeyAt_some hk) (xor_rel hleg hx hr.1)
+
 end YaraModel.Text
